@@ -260,20 +260,25 @@ def binary_session(app, cid, steps, selfplay=None, quit_during_search=False, wat
     banner = pr.get(10.0)      # the start-up banner is free text
     dead = False
 
-    def wait_bestmove(stop_after=None):
+    def wait_bestmove(stop_after=None, hit_after=None):
         nonlocal dead
         t0 = time.time()
+        hit_sent = hit_after is None
         stop_sent = stop_after is None
         logged = skipped = 0
         last_msg = time.time()
         while True:
             now = time.time()
+            if not hit_sent and now - t0 >= hit_after / 1000.0:
+                ev.append({"c": cid, "ev": "in", "cmd": "ponderhit"})
+                pr.send("ponderhit")
+                hit_sent = True
             if not stop_sent and (now - t0 >= stop_after / 1000.0 or logged >= 400):
                 ev.append({"c": cid, "ev": "in", "cmd": "stop"})
                 pr.send("stop")
                 stop_sent = True
             if not stop_sent:
-                line = pr.get(max(stop_after / 1000.0 - (now - t0), 0.0002))
+                line = pr.get(max(min(stop_after, hit_after if not hit_sent else stop_after) / 1000.0 - (now - t0), 0.0002))
                 if line == "<timeout>":
                     continue
             else:
@@ -309,7 +314,7 @@ def binary_session(app, cid, steps, selfplay=None, quit_during_search=False, wat
     def do_go(g):
         ev.append({"c": cid, "ev": "in", "cmd": "go", "searchmoves": g.get("searchmoves", []), "limited": limited(g), "params": g})
         pr.send(go_line(g))
-        return wait_bestmove(g.get("stop_after_ms"))
+        return wait_bestmove(g.get("stop_after_ms"), g.get("ponderhit_after_ms"))
 
     for st in steps:
         if dead:
@@ -641,6 +646,14 @@ def plan_c16(wd, rng, T, mat):
         # a search with a PV, then a move-less root on the same process: the ponder move must not be left over
         mk(binary, "binary", [{"t": "position", "fen": START, "moves": []}, {"t": "go", "depth": 3},
                                {"t": "position", "fen": g["fen"], "moves": []}, {"t": "go", "depth": 2}])
+    # a ponderhit in the middle of a search (the engine does not ponder; what it reports must not change character: time, nodes, depth go on)
+    heavy = heavy_positions(mat) or mat.items
+    for g in rng.sample(heavy, min(len(heavy), 10 if T else 3)):
+        steps = [{"t": "position", "fen": g["fen"], "moves": []},
+                 {"t": "go", "infinite": True, "ponderhit_after_ms": rng.choice([60, 150, 300]), "stop_after_ms": rng.choice([500, 800])},
+                 {"t": "go", "depth": 2}]
+        mk(binary, "binary", steps)
+        mk(inproc, "inproc", steps)
     # interrupted searches: the answer must still be the head of the last reported pv, wherever the interruption falls
     # (every node of the swept searches through hook H5a; real stop / move time expiry on positions with > 100,000 nodes per iteration)
     ip2, bin2, sw2 = plan_c09(wd, rng, T, mat, lite=True)
